@@ -18,6 +18,8 @@ Added after the seeding rounds (DESIGN.md 6.6-6.8):
             the two arms of the closed-form converters gate their shortcuts on the same angle band.
 Added after refactoring round 3 (DESIGN.md 6.9):
  ROWWISE.route  a batch estimator whose N-sample arm has no per-row estimate() call and is not twin-proved (Tilt, SAAM) gets no verdict (exit 2) instead of a silent pass.
+Added after seeding rounds 5 and 6 and refactoring round 4 (DESIGN.md 6.10-6.12):
+ ROWWISE.route pins; the scalar and array to_angles make the same tolerance tests (on unit rows).
 """
 import ast
 import numpy as np
